@@ -255,6 +255,13 @@ func (g *gatedCodec) ReadResponseBody(value []byte, x interface{}) error {
 	return g.ClientCodec.ReadResponseBody(value, x)
 }
 
+// ReadResponseHeader: the gate `dec` parks the thread that decodes received frames (the decode
+// worker; with direct I/O the reader itself) before it looks at the next frame.
+func (g *gatedCodec) ReadResponseHeader(ctx *rpc.Context) error {
+	g.env.hub.At("dec", "")
+	return g.ClientCodec.ReadResponseHeader(ctx)
+}
+
 // SetDirectIO / SetBufferSize pass through when the real codec supports them.
 func (g *gatedCodec) SetDirectIO(d bool) {
 	if s, ok := g.ClientCodec.(rpc.DirectIO); ok {
